@@ -29,7 +29,8 @@ ASSUMPTIONS = ["priority keys pairwise distinct (else the call is inconclusive)"
 PROFILE = world.profile(reconfig=0.3, constraints={"three": 6, "single": 1}, binding=(0.15, 0.8), evse_kinds={"cont": 3, "finite": 3},
                         party={"greedy": 4, "rr": 2, "uncontrolled": 1}, estimator={"none": 3, "stub": 1}, uninterrupted=0.35,
                         hot=0.1, b2b=0.2, stations=(3, 8), demand=(0.05, 1.6), heterovolt=0.9, rr_inc=[0.5, 1, 3],
-                        horizon=(4, 20), noise=0.1, chain_fill=(0.5, 1.0), sorted_max_recompute=[1, 1, 1, 1, 2, 3, None])
+                        horizon=(4, 20), noise=0.1, chain_fill=(0.5, 1.0), sorted_max_recompute=[1, 1, 1, 1, 2, 3, None],
+                        faults={"crash": 0.35}, resume_modes=["rerun", "rerun", "json_str"], reconfig_at_crash=0.7)
 EPS = [1e-7, 1e-6, 1e-4, 1e-3, 0.01, 0.1, 1]
 
 
@@ -205,7 +206,7 @@ def check(sc):
         def post(party_, iface, rec, sched):
             # eps probe on the state of the moment: call the public static max_feasible_rate for other tolerances
             cons = cons_of(sc, rec["t"])
-            if state["n"] >= 3 or not cons:
+            if state["n"] >= 3 or not cons or world.attempt_precedes_intervention(sc, rec):
                 return
             r = sub(sc["seed"], "eps", rec["t"])
             if r.random() < 0.5:
